@@ -30,6 +30,11 @@ pub fn alphabet(dim: usize, with_pokes: bool) -> Vec<TOp> {
         TOp::UpdMeta { id: 1, m: meta1("b", "2"), merge: true },
         TOp::UpdMeta { id: 1, m: meta1("c", "3"), merge: false },
         TOp::BulkLoad { docs: vec![(1, v_for(dim, 0.0, 1.0), meta1("bulk", "1")), (3, v_for(dim, -1.0, 0.0), meta1("bulk", "3"))] },
+        // empty-metadata edge: bulk load / overwrite / replace that leave the canonical metadata
+        // empty while an older mirror may still carry some
+        TOp::BulkLoad { docs: vec![(1, v_for(dim, 0.0, -1.0), Meta::new()), (2, v_for(dim, -3.0, 4.0), Meta::new())] },
+        TOp::Ins { id: 1, v: v_for(dim, -0.6, 0.8), m: Meta::new() },
+        TOp::UpdMeta { id: 1, m: Meta::new(), merge: false },
         TOp::Flush { force: true },
         TOp::Flush { force: false },
         TOp::Tick,
@@ -125,6 +130,13 @@ fn hash_state(te: &Te, model: &RefModel) -> u64 {
 }
 
 pub fn run_history(cfg: &TeCfg, hist: &[TOp], st: &mut Stats) {
+    run_history_mode(cfg, hist, st, false)
+}
+
+/// `quiet`: the harness issues its reads only after the LAST step. Reads are not neutral — a
+/// read that finds a stale copy scrubs it — so reading after every step hides whatever needs a
+/// stale copy to survive until a later drain. Both modes are explored.
+pub fn run_history_mode(cfg: &TeCfg, hist: &[TOp], st: &mut Stats, quiet: bool) {
     st.histories += 1;
     let rt = paused_runtime();
     let te = Te::new(cfg);
@@ -148,7 +160,7 @@ pub fn run_history(cfg: &TeCfg, hist: &[TOp], st: &mut Stats) {
         if te.engine.stats().hot_tier_emergency_evictions > emerg_before {
             st.emergency_drains += 1;
         }
-        let replay = |detail: &str| json!({"engine":"seqmc","check":"C04","cfg":cfg,"history":hist,"step":i,"detail":detail});
+        let replay = |detail: &str| json!({"engine":"seqmc","check":"C04","cfg":cfg,"history":hist,"step":i,"quiet":quiet,"detail":detail});
         if let Err(e) = r {
             let retval_only = e.contains(" returned ");
             if !(retval_only && poked_hot) {
@@ -201,6 +213,9 @@ pub fn run_history(cfg: &TeCfg, hist: &[TOp], st: &mut Stats) {
             }
         }
         // reads
+        if quiet && i + 1 != hist.len() {
+            continue;
+        }
         match check_reads(&te, &model, &ids) {
             Ok(n) => st.reads += n,
             Err((flavour, detail)) => {
@@ -243,6 +258,13 @@ pub fn explore(tier: &str) -> (Stats, Vec<TeCfg>, usize, usize, Vec<Value>) {
         for seq in sequences(alpha.len(), depth, &[*first]) {
             let hist: Vec<TOp> = seq.iter().map(|&i| alpha[i].clone()).collect();
             run_history(cfg, &hist, &mut st);
+            run_history_mode(cfg, &hist, &mut st, true);
+        }
+        for len in 2..depth {
+            for seq in sequences(alpha.len(), len, &[*first]) {
+                let hist: Vec<TOp> = seq.iter().map(|&i| alpha[i].clone()).collect();
+                run_history_mode(cfg, &hist, &mut st, true);
+            }
         }
         st
     });
@@ -297,7 +319,7 @@ pub fn run(prop: &str, tier: &str, replay: Option<&str>) -> i32 {
         ev.set("emergency_drains_triggered", tot.emergency_drains);
         ev.assume("evicted/drained content staying readable is the C04 read oracle, which runs in the same exploration");
     } else {
-        ev.set("rule", format!("all {nletters}^{depth} TieredEngine histories per configuration; after EVERY step every read flavour (query, get_document_with_metadata, get_embedding_cache_aware, get_metadata, exists, bulk_query with/without embeddings) is issued for ids {{1,2,3}} and compared with the reference map; drain and tick steps must leave the canonical store dump unchanged; non-trivial = histories containing an adversarial poke (stale/corrupt L1a or hot-tier entries planted through harness handles)"));
+        ev.set("rule", format!("all {nletters}^{depth} TieredEngine histories per configuration, each run twice: reading after EVERY step, and quiet (reads only after the last step, for every length 2..{depth}, because a read scrubs the stale copy it finds and would mask defects that need it to survive until a drain); at each read point every read flavour (query, get_document_with_metadata, get_embedding_cache_aware, get_metadata, exists, bulk_query with/without embeddings) is issued for ids {{1,2,3}} and compared with the reference map; drain and tick steps must leave the canonical store dump unchanged; non-trivial = histories containing an adversarial poke (stale/corrupt L1a or hot-tier entries planted through harness handles)"));
         ev.set("reads_checked", tot.reads);
         ev.set("emergency_drains_triggered", tot.emergency_drains);
         ev.assume("background task driven on a paused tokio clock (flush_interval 1 ns) so one TICK = one coherence audit + threshold drain");
@@ -319,7 +341,7 @@ fn run_replay(prop: &str, path: &str) -> i32 {
     let cfg: TeCfg = serde_json::from_value(c["cfg"].clone()).unwrap();
     let hist: Vec<TOp> = serde_json::from_value(c["history"].clone()).unwrap();
     let mut st = Stats::default();
-    run_history(&cfg, &hist, &mut st);
+    run_history_mode(&cfg, &hist, &mut st, c["quiet"].as_bool().unwrap_or(false));
     let bag = if prop == "C20" { &st.c20 } else { &st.c04 };
     if let Some((s, r)) = bag.any_first() {
         println!("replay: reproduced {s}: {}", r.get("detail").or(r.get("what")).unwrap_or(&Value::Null));
